@@ -125,10 +125,10 @@ theorem length_filterMap_ite {α β : Type} (p : α → Bool) (g : α → β) (l
     simp only [List.filterMap_cons, List.filter_cons]
     cases hp : p a <;> simp [ih]
 
-/-- **at most one target**: with odd `kSeg` and a TOF output, the loops of `SSRB(out, in)` add every input bin into at most one output bin -/
+/-- **at most one target**: with odd `kSeg` (TOF output, or a single TOF position as in non-TOF data), the loops of `SSRB(out, in)` add every input bin into at most one output bin -/
 theorem targets_length_le_one (pin pout : PDI) (kSeg kView trim maxSegArg kTof : Int)
     (hinfo : ssrbInfo pin kSeg kView trim maxSegArg kTof = some pout) (hk : 0 < kSeg) (hodd : kSeg % 2 = 1) (wf : pin.WF)
-    (htof : 0 < pout.tofMash) (b : Bin) : (targets pin pout b).length ≤ 1 := by
+    (htof : 0 < pout.tofMash ∨ pout.minTof = pout.maxTof) (b : Bin) : (targets pin pout b).length ≤ 1 := by
   unfold targets
   simp only
   split
@@ -139,7 +139,13 @@ theorem targets_length_le_one (pin pout : PDI) (kSeg kView trim maxSegArg kTof :
     apply length_le_one_of_nodup_of_eq _ ((outSinos_nodup pout).filter _)
     rintro ⟨os, oa, ot⟩ hx ⟨os', oa', ot'⟩ hy
     simp only [List.mem_filter] at hx hy
-    obtain ⟨e1, e2, e3⟩ := pullsSino_unique pin pout kSeg kView trim maxSegArg kTof hinfo hk hodd wf htof _ _ _ _ _ _ _ _ _ hx.2 hy.2
+    have hxm := (mem_outSinos pout os oa ot).mp hx.1
+    have hym := (mem_outSinos pout os' oa' ot').mp hy.1
+    obtain ⟨_, _, _, _, hx5, hx6⟩ := hxm
+    obtain ⟨_, _, _, _, hy5, hy6⟩ := hym
+    have htof' : 0 < pout.tofMash ∨ (pout.minTof = pout.maxTof ∧ pout.minTof ≤ ot ∧ ot ≤ pout.maxTof ∧ pout.minTof ≤ ot' ∧ ot' ≤ pout.maxTof) :=
+      htof.imp id fun h => ⟨h, hx5, hx6, hy5, hy6⟩
+    obtain ⟨e1, e2, e3⟩ := pullsSino_unique pin pout kSeg kView trim maxSegArg kTof hinfo hk hodd wf _ _ _ _ _ _ _ _ _ htof' hx.2 hy.2
     simp only [Prod.mk.injEq]
     exact ⟨e1, e2, e3⟩
 
@@ -148,7 +154,7 @@ theorem targets_length_le_one (pin pout : PDI) (kSeg kView trim maxSegArg kTof :
     trimmed — conserves the total; in general the total that is lost is exactly the content of the bins without a target. -/
 theorem ssrb_conserves_total (pin pout : PDI) (kSeg kView trim maxSegArg kTof : Int)
     (hinfo : ssrbInfo pin kSeg kView trim maxSegArg kTof = some pout) (hk : 0 < kSeg) (hodd : kSeg % 2 = 1) (wf : pin.WF)
-    (htof : 0 < pout.tofMash) (data out : List (Bin × Rat)) (h : ssrbData pin pout false data = some out) :
+    (htof : 0 < pout.tofMash ∨ pout.minTof = pout.maxTof) (data out : List (Bin × Rat)) (h : ssrbData pin pout false data = some out) :
     total out = total (data.filter fun bv => (targets pin pout bv.1).length != 0) ∧
     ((∀ bv ∈ data, targets pin pout bv.1 ≠ []) → total out = total data) := by
   have hlen := targets_length_le_one pin pout kSeg kView trim maxSegArg kTof hinfo hk hodd wf htof
